@@ -21,7 +21,8 @@ Record Frame (w w' : world) : Prop := mkFrame {
   fr_next : w_next w <= w_next w';
   fr_old : forall x n, w_nodes w x = Some n -> exists n', w_nodes w' x = Some n' /\ node_kept n n';
   fr_new : forall x n', w_nodes w x = None -> w_nodes w' x = Some n' -> n_files n' = [];
-  fr_models : map mview (w_models w') = map mview (w_models w);
+  fr_models : forall x', In x' (w_models w') ->
+              (exists x, In x (w_models w) /\ mview x = mview x') \/ (m_files x' = [] /\ w_nodes w (m_root x') = None);
   fr_files : w_files w' = w_files w
 }.
 
@@ -38,7 +39,12 @@ Proof.
 Qed.
 
 Lemma Frame_refl w : Frame w w.
-Proof. constructor; auto; try lia. - intros x n H. exists n. split; auto. apply node_kept_refl. - intros x n' H H'. congruence. Qed.
+Proof.
+  constructor; auto; try lia.
+  - intros x n H. exists n. split; auto. apply node_kept_refl.
+  - intros x n' H H'. congruence.
+  - intros x' H. left. eauto.
+Qed.
 
 Lemma Frame_trans a b c : Frame a b -> Frame b c -> Frame a c.
 Proof.
@@ -49,11 +55,12 @@ Proof.
     + pose proof (W1 _ _ H H1) as E. destruct (O2 _ _ H1) as (n2' & H2' & (_ & K)).
       assert (n2' = n2) by congruence. subst n2'. destruct K as [(F & _)|(F & _)]; congruence.
     + eapply W2; eauto.
-Qed.
-
-Lemma frame_model w w' x' : Frame w w' -> In x' (w_models w') -> exists x, In x (w_models w) /\ mview x = mview x'.
-Proof.
-  intros F Hx. apply (in_map mview) in Hx. rewrite (fr_models _ _ F) in Hx. apply in_map_iff in Hx as (x & E & Hx). eauto.
+  - intros x' Hx'. destruct (M2 _ Hx') as [(x1 & Hx1 & E1)|(Hf & Hn)].
+    + destruct (M1 _ Hx1) as [(x0 & Hx0 & E0)|(Hf & Hn)].
+      * left. exists x0. split; auto. congruence.
+      * right. injection E1 as Er Ef. split; congruence.
+    + right. split; auto. destruct (w_nodes a (m_root x')) as [n|] eqn:E; auto.
+      destruct (O1 _ _ E) as (n1 & H1 & _). congruence.
 Qed.
 
 Section Transfer.
@@ -110,9 +117,30 @@ Proof.
       * right. exists cn'. auto.
 Qed.
 
+(* everything below a root that is new in w' is new in w' *)
+Lemma frame_new_root w w' r : TreeInv w -> Core w' -> Frame w w' -> w_nodes w r = None ->
+  forall i, Reach w' r i -> w_nodes w i = None.
+Proof.
+  intros (C & NO & _) C' F Hr i H. induction H as [H|p c Hp IH Hl]; auto.
+  destruct (w_nodes w c) as [cn|] eqn:Hcn; auto. exfalso.
+  pose proof (c_up _ C' _ _ Hl) as (cn' & Hcn' & Hpar').
+  destruct (fr_old _ _ F _ _ Hcn) as (cn'' & Hcn'' & (Ty & K)). assert (cn'' = cn') by congruence. subst cn''.
+  destruct K as [(Fs & Pp)|(_ & Pp)]; [|congruence]. destruct Pp as [Pp|Pp]; [|congruence].
+  assert (par w c p) as Hparw by (exists cn; split; auto; congruence).
+  destruct (NO _ _ Hparw) as (pn & Hpn & _). congruence.
+Qed.
+
 Theorem frame_transfer w w' : TreeInv w -> Core w' -> Frame w w' -> FilesInv T w -> FilesInv T w'.
 Proof.
-  intros TI C' F FI x' Hx'. destruct (frame_model _ _ _ F Hx') as (x & Hx & Hv).
+  intros TI C' F FI x' Hx'. destruct (fr_models _ _ F _ Hx') as [(x & Hx & Hv)|(Hnf & Hnr)].
+  2:{ pose proof (frame_new_root _ _ _ TI C' F Hnr) as Hnew.
+      assert (forall i n', Reach w' (m_root x') i -> w_nodes w' i = Some n' -> n_files n' = []) as He
+        by (intros i n' Hr Hn'; apply (fr_new _ _ F i n'); auto).
+      constructor.
+      - intros i n' Hr Hn'. rewrite (He _ _ Hr Hn'). intros y [].
+      - intros i n' p Hr Hn' Hne. exfalso. apply Hne. eauto.
+      - intros i n' p pn' Hr Hn' Hne. exfalso. apply Hne. eauto.
+      - intros Hne. congruence. }
   pose proof (FI x Hx) as FIx. pose proof (frame_carried _ _ _ _ TI C' F FIx Hx Hx' Hv) as CA.
   destruct TI as (C & NO & _). injection Hv as Hroot Hfiles. constructor.
   - intros i n' Hr Hn'. rewrite <- Hfiles.
